@@ -383,6 +383,22 @@ def main():
         for p in PATHS:
             for x in (f"w{n}_{p}", f"w{n}_src"):
                 cur.execute(f"drop table if exists {x}")
+    # text values on an instance configured with nop_regexes: a VALUE that looks like a no-op'd statement is still data
+    fsn, connn = fsutil.fresh(nop_regexes=["^CALL.*", r"ALTER\s+SESSION\s", "^USE ROLE"])
+    curn = connn.cursor()
+    curn.execute("create table nv (id int, c varchar)")
+    nvals = ["line one\nCall me maybe", "please alter session timezone now", "x\nUSE ROLE admin", "call it a day", "CALL", "a\n\ncall proc()"]
+    for j, v in enumerate(nvals):
+        ck.cov["evaluations"] += 2
+        curn.execute(f"insert into nv values ({j}, {lit([4], v)})")
+        curn.execute("insert into nv (id, c) values (%s, %s)", (100 + j, v))
+    backn = curn.execute("select id, c from nv order by id").fetchall()
+    wantn = [(j, v) for j, v in enumerate(nvals)] + [(100 + j, v) for j, v in enumerate(nvals)]
+    if backn != wantn:
+        missing = [w for w in wantn if w not in backn]
+        report("nop-values", f"instance with nop_regexes ['^CALL.*', 'ALTER\\s+SESSION\\s', '^USE ROLE']: wrote {len(wantn)} text rows, read back {len(backn)}; not stored: {missing[:3]!r}",
+               {"nop_regexes": ["^CALL.*", "ALTER\\s+SESSION\\s", "^USE ROLE"], "written": wantn, "read": backn})
+    fsn.duck_conn.close()
     # int-family finding's own witness (so that it is reported iff it still fails)
     try:
         cur.execute("create or replace table w_int (c int)")
